@@ -6,7 +6,7 @@ from .. import AnalysisError
 from ..report import Ob
 from ..cfg import calls_at, call_attr, is_self_attr
 from ..state import Analysis, State, TOP, sched_calls, sched_event_type, sched_action_name, bind_call, SCHED_PARAMS
-from ..norm import Normalizer, FrameEnv
+from ..norm import Normalizer, FrameEnv, subst
 from .. import inventory as inv
 from .. import devices as dv
 from .c02 import construct_and_initialize
@@ -51,7 +51,7 @@ def res_inv(f):
 def release_hook(an, n, before, after):
     st = after
     for cl in calls_at(an.g, n):
-        if call_attr(cl) == 'release' and isinstance(cl.func, ast.Attribute) and is_self_attr(cl.func.value, '_reserved_resources'):
+        if call_attr(cl) == 'release' and isinstance(cl.func, ast.Attribute) and is_self_attr(subst(cl.func.value, FrameEnv(n.frame)), '_reserved_resources'):
             st = st.with_flag('released' if not (cl.args or cl.keywords) else 'released-partially')
             st = st.with_field('_reserved_resources', 'R')      # R = a released reservation object (stale)
     return st
